@@ -204,6 +204,10 @@ func execWorldCase(c *Sx, env *execEnv) (*Sx, []Violation) {
 			} else if unfocused != nil && unfocused.Head() == "err" && r.String() != unfocused.String() {
 				viols = append(viols, Violation{Prop: "C16", Kind: "focus-changes-error", Detail: "unfocused " + unfocused.String() + " focused " + r.String(), Case: c.String()})
 			}
+		case "evalall":
+			r, v := evalAll(dir, w, env, c.String())
+			out.Add(r)
+			viols = append(viols, v...)
 		default:
 			out.Add(At("bad-query"))
 		}
